@@ -59,10 +59,13 @@ class CWMH(ProposalBasedSampler):
         
     @ProposalBasedSampler.proposal.setter 
     def proposal(self, value):
-        fail_msg = "Proposal should be either None, cuqi.distribution.Distribution conditioned only on 'location' and 'scale', lambda function, or cuqi.distribution.Normal conditioned only on 'mean' and 'std'"
+        fail_msg = "Proposal should be either None, symmetric cuqi.distribution.Distribution conditioned only on 'location' and 'scale', lambda function, or cuqi.distribution.Normal conditioned only on 'mean' and 'std'"
 
         if value is None:
             self._proposal = cuqi.distribution.Normal(mean = lambda location:location,std = lambda scale:scale, geometry=self.dim)
+
+        elif isinstance(value, cuqi.distribution.Distribution) and not value.is_symmetric:
+            raise ValueError(fail_msg) # the acceptance ratio has no proposal-density term
 
         elif isinstance(value, cuqi.distribution.Distribution) and sorted(value.get_conditioning_variables())==['location','scale']:
             self._proposal = value
